@@ -245,6 +245,24 @@ def readdress_family():
                     yield {'names': names, 'phens': CONFLICT, 'cache': 1000, 'ops': ops}
 
 
+def resync_retry_family():
+    """3 instances, all of them running their loops all the time (`sync` every few seconds: everybody stays in PING contact
+    with everybody, except that A cannot reach B).  A's RESYNC to B, unreachable for the resync period, FAILS; before the
+    retry is due a local change is made and goes out to the peer in contact (the outgoing queue is empty again); the link
+    heals and the retried RESYNC is delivered.  What it carries is the state at THAT moment -- nobody else will repair it:
+    B and C see no reason to resync."""
+    warm = ['in A 0', 'sync']
+    for away in (6, 7, 9):                      # x 10 s
+        for work in (['in A 1'], ['in A 1', 'in A 2'], ['in A 0'], ['in A 9'], ['in A 1', 'in A 2', 'in A 3']):
+            for gap in (2, 4):
+                ops = list(warm) + ['down A B'] + ['tick 10', 'sync'] * away
+                for w in work:
+                    ops += [w, f'tick {gap}', 'sync']
+                ops += ['up A B', 'tick 11', 'sync', 'tick 10', 'sync', 'tick 10', 'sync', 'heal']
+                yield {'names': ['A', 'B', 'C'], 'phens': CONFLICT, 'cache': 1000, 'ops': ops}
+                yield {'names': ['A', 'C', 'B'], 'phens': CONFLICT, 'cache': 1000, 'ops': ops}
+
+
 def racing_engine_family():
     """the same run is finished (or advanced) on a peer and, at the same moment, locally: the peer's notification is being
     applied by the distributed thread while the engine thread processes the datum that does the same to the local copy
